@@ -265,6 +265,10 @@ def run(ctx):
     run.rule(R7, "the flow finalize runs in must match the wallet's own record: update_stored_tx(is_invoiced) selects a TxSent entry iff !is_invoiced, a TxReceived entry iff is_invoiced", floor=2)
     from .shared import flow_tied_entry
     flow_tied_entry(ctx, R7)
+    R8 = "C02.R8"
+    run.rule(R8, "a finalized transaction spends inputs the wallet holds reserved for that transaction and no other: the reservation step re-reads every input and refuses one that is reserved for another send (finalization itself only asks for the slate's TxSent entry and rebuilds the inputs from the stored context)", floor=2)
+    from .shared import reservation_recheck
+    reservation_recheck(ctx, R8)
     run.not_decided += [
         "consensus validity of the produced transaction as such (cryptographic/numeric)",
         "that an altered reply is detected by the signature arithmetic (relies on verify_* semantics)",
